@@ -44,8 +44,9 @@ def cross_process(editions, root, xs=(2,)):
         vprogs.write_package(prog, sub, "vpk")
         ms = [n for n in prog["order"] if n[0] == "m"]
         acts = [["import"], ["versions"]]
+        argsof = lambda n: ([2 + i] if n in prog.get("fresh_args", []) else xs)
         for n in ms:
-            for x in xs:
+            for x in argsof(n):
                 acts += [["call", n, x], ["unmemo", n, x]]
         out = vrun.child(dict(root=sub, pkg="vpk", store=store, actions=acts), hashseed=i % 3)
         if out[0] != "ok":
@@ -54,7 +55,7 @@ def cross_process(editions, root, xs=(2,)):
         log.append(out[1])
         j = 2
         for n in ms:
-            for x in xs:
+            for x in argsof(n):
                 f = judge(i, n, out[j], out[j + 1])
                 if f:
                     fails.append(f)
@@ -111,7 +112,9 @@ def in_process(editions, root, xs=(2,)):
         if i % 2 == 1:
             ms = list(reversed(ms))          # callers first: the callees are first reached from inside a running body
         for n in ms:
-            for x in xs:
+            # functions listed under "fresh_args" (explicitly versioned roots whose version string the user leaves alone)
+            # are called with an argument no earlier edition used: their body runs and reaches its callees from inside
+            for x in ([2 + i] if n in prog.get("fresh_args", []) else xs):
                 marks.append((i, n, len(acts)))
                 acts += [["call", n, x], ["unmemo", n, x]]
     out = vrun.child(dict(root=sub, pkg="vpk", store=store, actions=acts))
@@ -201,6 +204,14 @@ def corpus():
     x2 = json.loads(json.dumps(x1)); x2["defs"]["h1"]["const"] = 7; x2["defs"]["m2"]["explicit"] = "r3"
     x3 = json.loads(json.dumps(x2)); x3["defs"]["V1"]["value"] = 6; x3["defs"]["m2"]["explicit"] = "r4"
     out.append([x0, x1, x2, x3])
+    # the same without touching the root (no memento function is re-defined between the editions): the root is called with
+    # new arguments, its body runs and calls the automatically versioned function, which must be current
+    y0 = dict(defs={"V1": dict(kind="var", where="mod", value=3), "h1": _fn("plain", [["V1", "bare"]]), "m1": _fn("memento", [["h1", "bare"], ["V1", "bare"]]),
+                    "m2": _fn("memento", [["m1", "bare"], ["m1", "chained"]], explicit="r1")}, order=["V1", "h1", "m1", "m2"], fresh_args=["m2"])
+    y1 = json.loads(json.dumps(y0)); y1["defs"]["V1"]["value"] = 5
+    y2 = json.loads(json.dumps(y1)); y2["defs"]["h1"]["const"] = 7
+    y3 = json.loads(json.dumps(y2)); y3["defs"]["V1"]["value"] = 6
+    out.append([y0, y1, y2, y3])
     # F21: an alias re-bound between two functions that are both dependencies already
     a0 = dict(defs={"m1": _fn("memento", []), "m2": _fn("memento", [], const=2),
                     "m3": _fn("memento", [["m1", "bare"], ["m1", "alias"], ["m2", "bare"]])}, order=["m1", "m2", "m3"])
